@@ -869,7 +869,8 @@ def plan_c19(run, prop, tier):
              dict(profile="high", n=2, cap=131, steps=500, seed=s * 100 + 60, window=12)]
     if tier == "thorough":
         bases += [dict(profile=p, n=n, cap=c, steps=steps, seed=s * 1000 + 500 + i, window=w)
-                  for i, (p, n, c, w) in enumerate([("mixed", 3, 16, 12), ("twin", 1, 8, 7), ("slice", 3, 14, 10), ("merge", 3, 24, 10), ("groups14", 2, 40, 10), ("big16", 2, 20, 18)])]
+                  for i, (p, n, c, w) in enumerate([("mixed", 3, 16, 12), ("twin", 1, 8, 7), ("slice", 3, 14, 10), ("merge", 3, 24, 10), ("groups14", 2, 40, 10), ("big16", 2, 20, 18),
+                                                    ("cycle", 2, 64, 10), ("cyclescript", 2, 64, 10), ("alloc", 3, 150, 10), ("merge", 3, 130, 130), ("high", 2, 255, 20)])]
     others = {1: [(2, 6), (16, 256)], 2: [(2, 13), (3, 12), (4, 64), (16, 256)], 3: [(4, 17), (8, 64), (16, 256)]}
     if tier == "quick":
         others = {1: [(16, 256)], 2: [(3, 13), (16, 256)], 3: [(16, 256)]}
